@@ -107,7 +107,7 @@ def generate(seed, tier):
     src_fmt = rng.choice(["export", "export", "tigerxml", "discobrackets"])
     dest_fmt = rng.choice(c03.DEST_FORMATS)
     src_enc = rng.choice(["utf-8", "utf-8", "latin-1", "utf-16"])
-    dest_enc = rng.choice(["utf-8", "utf-8", "latin-1", "utf-16"])
+    dest_enc = rng.choice(["utf-8", "utf-8", "latin-1", "utf-16", "cp1252", "iso-8859-15"])
     k = model.swarm_knobs(rng, tier, allow=("ascii", "latin1"),
                           continuous=(dest_fmt == "brackets"))
     k["n_max"] = rng.choice([1, 2, 4, 6])
